@@ -1,24 +1,13 @@
-"""Per-property configuration of the generic check flow in ./kv."""
+"""Per-property configuration of the generic check flow in ./kv: one file per property in lib/props.d/<ID>.py
+defining PROP (check configuration) and META (MANIFEST text)."""
+import glob, importlib.util, os
 
-Q_HEADER = "From KV Require Import base.Tac queue.Queue queue.QueueCheck.\nOpen Scope N_scope."
-
-PROPS = {
-    'C09': {
-        'translators': ['t_queue'],
-        'coq_targets': ['props/C09.vo', 'queue/QueueCheck.vo'],
-        'props_file': 'props/C09.v',
-        'checker_vo': 'queue/QueueCheck.vo',
-        'scenario': 'c09',
-        'evals': ['agrees', 'c09_ok'],
-        'extra': {'quick': {'sequences': 400}, 'thorough': {'sequences': 8000}},
-        'replay_header': Q_HEADER,
-        'replay_footer': "Eval vm_compute in (failing agrees base_index cases).\nEval vm_compute in (failing c09_ok base_index cases).",
-        'stats_keys': ['sequences'],
-        'assumptions': [
-            'the key-value store lists keys in arbitrary order (model: all outcomes); clock readings are only compared through an order-preserving renaming',
-            'OS process death is modelled as "the in-memory TaskQueue is dropped, the stored keys survive" (restart op); mutations of one store.execute are not cut here (C08 covers cut points)',
-            'the 500 ms polling thread and process::exit paths of the scheduler are outside the model',
-        ],
-        'trusted_extra': ['translate/t_queue.py: ScheduleMode arms, start-up guard, TaskQueue entry points, event->task tables, scheduler result arms'],
-    },
-}
+PROPS = {}
+METAS = {}
+for _p in sorted(glob.glob(os.path.join(os.path.dirname(os.path.abspath(__file__)), 'props.d', 'C*.py'))):
+    _pid = os.path.basename(_p)[:-3]
+    _spec = importlib.util.spec_from_file_location('props_' + _pid, _p)
+    _m = importlib.util.module_from_spec(_spec)
+    _spec.loader.exec_module(_m)
+    PROPS[_pid] = _m.PROP
+    METAS[_pid] = _m.META
